@@ -75,29 +75,36 @@ func c30Site(f *File, cond ast.Expr, v, now string, extra ...string) (Tri, Tri) 
 	return guard, strict
 }
 
-// c30NowExp: inside fd, `now` is assigned exactly once, from time.Now().UTC().UnixNano() (or without UTC),
-// and `exp` exactly once, from <x>.GetExpirationTime()
-func c30NowExp(f *File, fd *ast.FuncDecl) bool {
-	nowOK, expOK, nowN, expN := false, false, 0, 0
+// c30NowExp: inside fd exactly one local is assigned (once) from time.Now().UTC().UnixNano() (or without
+// UTC) and exactly one (once) from <x>.GetExpirationTime(); their names, whatever they are
+func c30NowExp(f *File, fd *ast.FuncDecl) (nowName, expName string, ok bool) {
+	nowN, expN := 0, 0
+	assigned := map[string]int{}
 	ast.Inspect(fd.Body, func(n ast.Node) bool {
-		if as, ok := n.(*ast.AssignStmt); ok && len(as.Lhs) == 1 && len(as.Rhs) == 1 {
-			switch f.Str(as.Lhs[0]) {
-			case "now":
+		if as, isAs := n.(*ast.AssignStmt); isAs && len(as.Lhs) == 1 && len(as.Rhs) == 1 {
+			id, isId := as.Lhs[0].(*ast.Ident)
+			if !isId {
+				return true
+			}
+			assigned[id.Name]++
+			r := f.Str(as.Rhs[0])
+			if r == "time.Now().UTC().UnixNano()" || r == "time.Now().UnixNano()" {
 				nowN++
-				r := f.Str(as.Rhs[0])
-				nowOK = r == "time.Now().UTC().UnixNano()" || r == "time.Now().UnixNano()"
-			case "exp":
+				nowName = id.Name
+			}
+			if strings.HasSuffix(r, ".GetExpirationTime()") {
 				expN++
-				expOK = strings.HasSuffix(f.Str(as.Rhs[0]), ".GetExpirationTime()")
+				expName = id.Name
 			}
 		}
 		return true
 	})
-	return nowOK && expOK && nowN == 1 && expN == 1
+	ok = nowN == 1 && expN == 1 && assigned[nowName] == 1 && assigned[expName] == 1 && nowName != expName
+	return
 }
 
 func c30Run(fs *Facts) {
-	names := []string{"isExpiredGuard0", "isExpiredStrict", "shiftGuard0", "shiftStrict", "selectGuard0", "selectStrict",
+	names := []string{"isExpiredGuard0", "isExpiredStrict", "shiftGuard0", "shiftStrict",
 		"selectCapGuard0", "selectCapStrict", "coldBuildNe0", "addBeaconsNe0", "saveBranchNe0", "reindexNe0", "patchReaddNe0",
 		"filterGuard0", "isEmptyEq0", "setZeroNone", "clearWins"}
 	tr, e1 := Load(c06Treasure)
@@ -164,19 +171,20 @@ func c30Run(fs *Facts) {
 		}
 		var g, st Tri = Unknown, Unknown
 		var at ast.Node = fd
-		if !c30NowExp(bc, fd) {
+		now, exp, ok := c30NowExp(bc, fd)
+		if !ok {
 			return Unknown, Unknown, at
 		}
 		ast.Inspect(fd.Body, func(n ast.Node) bool {
 			switch x := n.(type) {
 			case *ast.IfStmt:
-				if !viaAssign && strings.Contains(bc.Str(x.Cond), "counter < howMany") && strings.Contains(bc.Str(x.Cond), "exp") {
-					g, st = c30Site(bc, x.Cond, "exp", "now", "counter < howMany")
+				if !viaAssign && strings.Contains(bc.Str(x.Cond), "counter < howMany") && strings.Contains(bc.Str(x.Cond), exp) {
+					g, st = c30Site(bc, x.Cond, exp, now, "counter < howMany")
 					at = x
 				}
 			case *ast.AssignStmt:
 				if viaAssign && len(x.Lhs) == 1 && bc.Str(x.Lhs[0]) == "isExpired" {
-					g, st = c30Site(bc, x.Rhs[0], "exp", "now")
+					g, st = c30Site(bc, x.Rhs[0], exp, now)
 					at = x
 				}
 			}
@@ -187,7 +195,7 @@ func c30Run(fs *Facts) {
 	for _, s := range []struct {
 		name, fn string
 		assign   bool
-	}{{"shift", "ShiftExpired", false}, {"select", "SelectExpiredForPatch", false}, {"selectCap", "SelectExpiredForPatchWithCap", true}} {
+	}{{"shift", "ShiftExpired", false}, {"selectCap", "SelectExpiredForPatchWithCap", true}} {
 		g, st, at := siteIn(s.fn, s.assign)
 		set(s.name+"Guard0", g, bc, at)
 		set(s.name+"Strict", st, bc, at)
